@@ -93,6 +93,19 @@ fn once(c: &Case) -> Verdict {
                 }
                 return Err(format!("{name} = {got:?}, definition {want:?}"));
             }
+            // two sequences alive at the same time (the digraph and one with its
+            // first arc reversed or removed), polled in turn
+            if c.a.order <= 4100 {
+                let mut b = c.a.clone();
+                let mut want_b = want.clone();
+                if let Some(&(u, v)) = distinct.iter().next() {
+                    b.arcs.retain(|&a| a != (u, v));
+                    want_b[u] -= 1;
+                    want_b[v] -= 1;
+                }
+                let h = AdjacencyList::build(&b);
+                guarded(|| crate::props::c02::interleaved(name, g.degree_sequence(), &want, h.degree_sequence(), &want_b)).map_err(|p| format!("{name} panicked: {p}"))??;
+            }
             Ok(())
         }
         "AdjacencyList::is_semicomplete" => {
@@ -213,7 +226,7 @@ impl Prop for C17 {
     type Case = Case;
     const ID: &'static str = "C17";
     const NUM: u64 = 17;
-    const RULE: &'static str = "(operation, inputs, k, repetitions): operation in {AdjacencyList::{complement, complete, degree_sequence, is_semicomplete, union}, AdjacencyMap::union, AdjacencyMap::{random_tournament, erdos_renyi}}; k in 1..=16 CPUs set with sched_setaffinity immediately before the call; row counts in the classes k-1, k, k+1, 2k+1, 3k-1, 5k+3 and free (up to 60 quick / 130 thorough); AdjacencyMap::union operands with key sets drawn from 0..64 so that equal keys fall on, before and after merge-path partition points; every case is executed 3 (quick) / 10 (thorough) times; the oracle is the single-threaded definition from the model, the same for every k and repetition; enum leg: AdjacencyList::complete(n) and complement(path(n)) for every n in 1..=64 at every k in 1..=16. A low-rate 'huge' leg adds digraphs of 200..3100 vertices with O(n) arcs (paths, circuits, stars, wheels, trees, one row of exactly 255/256/257 out-neighbours, arcs in the last rows, complete below 300). Non-trivial = k >= 2 was in effect, row count > k and not a multiple of ceil(rows/k); distinct = distinct serialised case.";
+    const RULE: &'static str = "(operation, inputs, k, repetitions): operation in {AdjacencyList::{complement, complete, degree_sequence, is_semicomplete, union}, AdjacencyMap::union, AdjacencyMap::{random_tournament, erdos_renyi}}; k in 1..=16 CPUs set with sched_setaffinity immediately before the call; row counts in the classes k-1, k, k+1, 2k+1, 3k-1, 5k+3 and free (up to 60 quick / 130 thorough); AdjacencyMap::union operands with key sets drawn from 0..64 so that equal keys fall on, before and after merge-path partition points; every case is executed 3 (quick) / 10 (thorough) times; the oracle is the single-threaded definition from the model, the same for every k and repetition; enum leg: AdjacencyList::complete(n) and complement(path(n)) for every n in 1..=64 at every k in 1..=16. A low-rate 'huge' leg adds digraphs of 200..3100 vertices with O(n) arcs (paths, circuits, stars, wheels, trees, one row of exactly 255/256/257 out-neighbours, arcs in the last rows, complete below 300). degree_sequence is also taken from two digraphs at once, the two iterators polled in turn. Seeds are uniform, 0..2 or within 17 of u64::MAX (per-thread seeds are derived by addition). Non-trivial = k >= 2 was in effect, row count > k and not a multiple of ceil(rows/k); distinct = distinct serialised case.";
     const ASSUMPTIONS: &'static [&'static str] = &[
         "natively only the CPU count and repetition vary the interleaving; the schedule itself is owned only in the Miri leg (thorough tier, see DESIGN.md)",
         "for the seeded AdjacencyMap generators only validity and repeatability within one configuration are asserted",
@@ -315,7 +328,7 @@ impl Prop for C17 {
             (vec(any::<u16>(), 16), vec(any::<u16>(), 16)),
             (vec((any::<u16>(), any::<u16>()), 120), vec((any::<u16>(), any::<u16>()), 120)),
             (any::<u16>(), any::<u16>()),
-            (any::<u64>(), prop_oneof![1 => Just(0.0_f64), 1 => Just(1.0), 1 => Just(0.5), 5 => 0.0..=1.0_f64]),
+            (prop_oneof![6 => any::<u64>(), 1 => (0..=17_u64).prop_map(|k| u64::MAX - k), 1 => 0..=2_u64], prop_oneof![1 => Just(0.0_f64), 1 => Just(1.0), 1 => Just(0.5), 5 => 0.0..=1.0_f64]),
         )
             .prop_map(move |(op, (ra, rb), cpus, (ca, cb, share), (ba, bb), (pa, pb), (la, lb), (seed, p))| {
                 let mut ra = relative_order(ra, cpus, ca, max);
